@@ -11,3 +11,10 @@ def shortest(words: list[str], strip: bool) -> str:
 
 
 def scale(x: int) -> int: return x * 2 if x > 0 else (lambda: -x)()  # noqa: E704
+
+
+PAIR = (lambda v: v + 1, lambda v: v - 1)  # two branch-less code objects that start on one line
+
+
+def apply(i: int, v: int) -> int:
+    return PAIR[i % 2](v)
